@@ -1137,3 +1137,24 @@ package engine
 //@   requires low < 9223372036854775807
 //@   nosafety
 //@   at-call Between requires[continues-above-low] a1 is Integer && (a1 as Integer) == low + 1 && a2 == upper && a3 == value && a4 == k
+
+//@ ---------------------------------------------------------------- no crash: thin safety contracts (C05)
+
+//@ extern math/big.ParseFloat
+//@   pure
+//@   allocates
+//@   ensures err != nil ==> f == nil
+//@ extern math/big.NewFloat
+//@   pure
+//@   allocates
+//@   ensures result != nil
+//@ extern (*math/big.Float).Mul
+//@   requires z != nil && x != nil && y != nil
+//@   modifies nothing
+//@ extern (*math/big.Float).Float64
+//@   requires x != nil
+//@   modifies nothing
+//@   ensures !fp.isNaN(result0)
+
+//@ func float
+//@   property C05 C07
